@@ -23,7 +23,7 @@ from . import stdp_traces
 
 PID = "C18"
 DT = 2      # ticks per step
-INVARIANTS = ["TypeOK", "EventTimeOK", "Refinement", "Identities", "RoutingOK"]
+INVARIANTS = ["TypeOK", "EventTimeOK", "Refinement", "Identities", "RoutingOK", "ShiftIdentity"]
 SPEC_RULE = {"da_stdp": "w", "dak_stdp": "w", "da_stdpd": "d", "dak_stdpd": "d", "da_mstdp": "mw",
              "da_mstdpd": "md", "k_stdp": "k"}
 VARIANTS = tuple(SPEC_RULE)
@@ -32,20 +32,25 @@ RTOK = (-1, 0, 1, 2)
 
 
 def constants(T, T3):
-    return dict(DT=DT, RuleSet={"w", "d", "mw", "md", "k"}, DelaySet=set(range(2 * DT + 1)), RPos={0, 1, 2},
-                RNegMag={1}, T=T, T3=T3)
+    return dict(DT=DT, RuleSet={"w", "d", "mw", "md", "k", "ka"}, DelaySet=set(range(2 * DT + 1)), RPos={0, 1, 2},
+                RNegMag={1}, T=T, T3=T3, QSet={1, 2})
 
 
 def load_tables(docs):
     tab = {}
     for doc in docs:
         key = doc["s"]["rule"]
+        if key == "ka":
+            key = f"ka{doc['s']['q']}"         # KernelSTDP with a constant delay of q steps
         tab.setdefault(key, {})[(tuple(doc["s"]["x"]), tuple(doc["s"]["y"]))] = {
             (o["op"]["x"], o["op"]["y"], o["op"]["d"], o["op"]["r"]): (o["dw"], o["near"]) for o in doc["out"]}
     return tab
 
 
 def expected(tab, rule, xh, yh, t, d, r):
+    if rule == "k" and d:
+        # KernelSTDP with a constant on-grid delay (d ticks = d / DT steps): the arrival rule
+        return tab[f"ka{d // DT}"][(xh[:t], yh[:t])][(xh[t], yh[t], 0, r)]
     return tab[rule][(xh[:t], yh[:t])][(xh[t], yh[t], d, r)]
 
 
@@ -105,8 +110,11 @@ def population(chk, tab, mm, *, variant, splus, sminus, dt, dyadic, shift, T, rn
     total = [[0.0] * n for _ in range(n)]
     steps, outs = [], []
     for t in range(T):
-        if shift is None or shift == "zero" or rule == "k":
+        if shift is None or shift == "zero":
             Dk = [[0] * n for _ in range(n)]
+        elif rule == "k":
+            # KernelSTDP: per-synapse delays of 0, 1 or 2 whole steps, constant over the run (arrival rule)
+            Dk = [[((o + 2 * i + shift) % 3) * DT for i in range(n)] for o in range(n)]
         else:
             Dk = [[(o + 2 * i + 3 * t + shift) % (2 * DT + 1) for i in range(n)] for o in range(n)]
         if shift is not None:
@@ -218,8 +226,9 @@ def cell_1x1(chk, tab, mm, *, variant, splus, sminus, dt, dyadic, nodelay, B, re
         return 0
     tick = dt / DT
     steps, edges, total = [], 0, 0.0
+    kq = rng.choice([0, 1, 2]) * DT            # KernelSTDP: a constant delay of 0, 1 or 2 steps
     for t in range(T):
-        d = 0 if (nodelay or rule == "k") else rng.randrange(2 * DT + 1)
+        d = 0 if nodelay else (kq if rule == "k" else rng.randrange(2 * DT + 1))
         if not nodelay:
             run.set_delay(d / DT)
         x = torch.tensor([[bool(xs[b][t])] for b in range(B)])
@@ -308,10 +317,12 @@ def cells_on_one_trainer(chk, tab, mm, *, variant, rng, T, guards):
             if skind == "conn":
                 hdrs[-1]["dmax"] = hdrs[0]["dmax"]
 
+    kqs = [rng.choice([0, 1, 2]) for _ in range(n)]       # KernelSTDP: constant whole-step delays per cell
+
     def delay_of(j, t):
         if hdrs[j]["dmax"] is None:
             return None
-        return 0.0 if rule == "k" else rng.randrange(2 * DT + 1) / DT
+        return float(kqs[j]) if rule == "k" else rng.randrange(2 * DT + 1) / DT
 
     def expect(j, xh, yh, t, r, d):
         dw, near = expected(tab, rule, xh, yh, t, int(round((d or 0) * DT)), r)
